@@ -1,7 +1,8 @@
 (* C09 -- Slow tests are flagged, terminated only at the configured deadline, then killed.
    Statements only; the model is Model/UnitTimers.v, tied to nextest by the end-to-end checks. *)
 From NextestModel Require Import Base.Str Model.Clocks Model.UnitTimers Model.AbsTimers
-  Proofs.Timers Proofs.UnitProps.
+  Model.UnitMonitor Proofs.Timers Proofs.UnitProps Proofs.UnitHistory Proofs.PauseCert gen.GenPauseTable.
+From Coq Require Import MSets.MSetPositive.
 Open Scope N_scope.
 
 (* Never before the deadline, for every event sequence of any length, every pause table and
@@ -69,6 +70,151 @@ Theorem C09_fast_untouched :
   ucore tbl cfg s (AChildExit ok) = Ok (with_ph (with_reaped s true ok) (after_exit s), []).
 Proof. exact child_exit_running. Qed.
 Print Assumptions C09_fast_untouched.
+
+(* ================================================================ over whole histories
+   The statements below quantify over ALL event histories the environment of Model/UnitMonitor.v
+   can produce ([mrun true ... = MOk m] holds exactly for the histories accepted by [senv_trace]:
+   the dispatcher's alternation of Stop / Continue, Once-then-Twice shutdown requests, and
+   nextest's own stop -- inside a stopped window nothing but time happens until the resumption),
+   for the pause table regenerated from the source, through its certificate (Proofs/PauseCert.v).
+   The monitor [m] counts unpaused time: [m_rt] = time received while no Stop was outstanding and
+   the unit was in the running or terminating loop; log entries carry the event, the phase and
+   those counters at the moment an output was produced. *)
+
+(* Never before the deadline, in RUNNING time: a signal sent because the slow-timeout interval
+   expired (the timeout termination; before any shutdown request) is the timeout method, and is
+   sent only after terminate-after x period of unpaused running time; and whenever a unit is being
+   or has been terminated for a timeout that much unpaused running time has passed. *)
+Theorem C09_never_terminated_early_running_time :
+  forall cfg es m, cfg_valid cfg -> mrun true pause_table cfg (minit cfg) es = MOk m ->
+  (forall l, In l (m_log m) -> le_ev l = FireInterval -> le_sh0 l = true ->
+     forall sg, le_out l = OSignal sg ->
+     sg = timeout_method cfg /\
+     exists ta, terminate_after cfg = Some ta /\ ta * period cfg <= le_rt l) /\
+  (no_shutdown_yet (m_x m) = true -> past_timeout (m_u m) ->
+     exists ta, terminate_after cfg = Some ta /\ ta * period cfg <= m_rt m).
+Proof.
+  intros cfg es m Hv Hr.
+  exact (never_terminated_early_running_time pause_table pause_reach pause_cert cfg Hv es m Hr).
+Qed.
+Print Assumptions C09_never_terminated_early_running_time.
+
+(* the same for any pause table with a certificate *)
+Theorem C09_never_terminated_early_running_time_certified :
+  forall tbl S, cert_with tbl S = true ->
+  forall cfg es m, cfg_valid cfg -> mrun true tbl cfg (minit cfg) es = MOk m ->
+  forall l, In l (m_log m) -> le_ev l = FireInterval -> le_sh0 l = true ->
+  forall sg, le_out l = OSignal sg ->
+  sg = timeout_method cfg /\ exists ta, terminate_after cfg = Some ta /\ ta * period cfg <= le_rt l.
+Proof.
+  intros tbl S Hc cfg es m Hv Hr.
+  exact (proj1 (never_terminated_early_running_time tbl S Hc cfg Hv es m Hr)).
+Qed.
+Print Assumptions C09_never_terminated_early_running_time_certified.
+
+(* It FAILS for a table that does not pause the interval sleep (here: the empty table, which has no
+   certificate): stopped for a whole period, the unit is terminated after zero running time.
+   ([C09_never_terminated_early] above, which bounds real time, holds for this table too.) *)
+Definition empty_table : ptable :=
+  {| t_run_stop := []; t_run_cont := []; t_term_stop := []; t_term_cont := [];
+     t_delay_stop := []; t_delay_cont := []; t_leak_stop := []; t_leak_cont := [] |}.
+Example C09_never_terminated_early_running_time_refuted_for_the_empty_table :
+  let cfg := {| period := 5; terminate_after := Some 1; grace := 7; leak_timeout := 1 |} in
+  let es := [Req RStop; Tick 5; FireInterval] in
+  cfg_valid cfg /\ senv_trace senv0 es = true /\ cert empty_table = false /\
+  exists m l, mrun true empty_table cfg (minit cfg) es = MOk m /\ In l (m_log m) /\
+    le_ev l = FireInterval /\ le_sh0 l = true /\ le_out l = OSignal SigTerm /\
+    terminate_after cfg = Some 1 /\ le_rt l = 0 /\ 1 * period cfg = 5.
+Proof.
+  split; [cbv; discriminate|]. split; [reflexivity|]. split; [vm_compute; reflexivity|].
+  eexists. eexists. split; [vm_compute; reflexivity|]. split; [left; reflexivity|]. repeat split.
+Qed.
+
+(* SIGKILL at the end of the grace period -- after the SIGTERM of the timeout path, or after a
+   forwarded shutdown signal -- only after at least the grace period of unpaused time since the
+   termination began. *)
+Theorem C09_kill_not_before_grace :
+  forall cfg es m, cfg_valid cfg -> mrun true pause_table cfg (minit cfg) es = MOk m ->
+  forall l, In l (m_log m) -> le_ev l = FireGrace -> le_out l = OSignal SigKill ->
+  grace cfg <= le_gun l.
+Proof.
+  intros cfg es m Hv Hr. exact (kill_not_before_grace pause_table pause_reach pause_cert cfg Hv es m Hr).
+Qed.
+Print Assumptions C09_kill_not_before_grace.
+
+(* Why the environment premise (nextest's own stop) is needed: the audit's history -- a shutdown
+   request handled by the stopped process, followed by 7 units of stopped time -- is accepted by
+   the old premise [env_trace] (alternation only), rejected by [senv_trace], and run without the
+   check it kills after zero unpaused time. *)
+Example C09_kill_not_before_grace_needs_the_self_stop_premise :
+  let cfg := {| period := 50; terminate_after := None; grace := 7; leak_timeout := 1 |} in
+  let es := [Tick 1; Req RStop; Req (RShutdown (Once SInt)); Tick 7; FireGrace] in
+  env_trace t0 es = true /\ senv_trace senv0 es = false /\
+  exists m l, mrun false pause_table cfg (minit cfg) es = MOk m /\ In l (m_log m) /\
+    le_ev l = FireGrace /\ le_out l = OSignal SigKill /\ le_gun l = 0 /\ grace cfg = 7.
+Proof.
+  split; [reflexivity|]. split; [reflexivity|].
+  eexists. eexists. split; [vm_compute; reflexivity|]. split; [left; reflexivity|]. repeat split.
+Qed.
+
+(* A child whose exit has been observed is never signalled again: no output of any later step is a
+   signal to the group. Any pause table, any history whatever (no premise at all). *)
+Theorem C09_no_signal_after_exit :
+  forall chk tbl cfg es m, mrun chk tbl cfg (minit cfg) es = MOk m ->
+  forall l sg, In l (m_log m) -> le_out l = OSignal sg -> le_exited l = false.
+Proof. exact no_signal_after_exit. Qed.
+Print Assumptions C09_no_signal_after_exit.
+
+(* The slow mark (before any shutdown request): set => at least one full period of unpaused running
+   time has passed; not set => at most one period has -- provided the environment lets no time
+   pass beyond the expiry of the interval without delivering it ([m_late = false]; timers fire
+   when due). So, timers being timely: ran for longer than the period => slow => ran for at least
+   the period. At exactly one period either is possible (the expiry races the exit). *)
+Theorem C09_slow_iff :
+  forall cfg es m, cfg_valid cfg -> mrun true pause_table cfg (minit cfg) es = MOk m ->
+  no_shutdown_yet (m_x m) = true ->
+  (slow (m_u m) = true -> period cfg <= m_rt m) /\
+  (m_late m = false -> slow (m_u m) = false -> m_rt m <= period cfg).
+Proof.
+  intros cfg es m Hv Hr. exact (slow_iff pause_table pause_reach pause_cert cfg Hv es m Hr).
+Qed.
+Print Assumptions C09_slow_iff.
+
+(* without timeliness the "if" half fails: time runs past the deadline, the expiry is never
+   delivered, the child exits *)
+Example C09_slow_if_refuted_without_timely_timers :
+  let cfg := {| period := 5; terminate_after := None; grace := 7; leak_timeout := 1 |} in
+  let es := [Tick 12; ChildExit true; FdsDone] in
+  exists m, mrun true pause_table cfg (minit cfg) es = MOk m /\ no_shutdown_yet (m_x m) = true /\
+    m_late m = true /\ slow (m_u m) = false /\ m_rt m = 12 /\ period cfg = 5.
+Proof. eexists. split; [vm_compute; reflexivity|]. repeat split. Qed.
+
+(* at exactly one period both outcomes exist *)
+Example C09_slow_at_exactly_one_period :
+  let cfg := {| period := 5; terminate_after := None; grace := 7; leak_timeout := 1 |} in
+  (exists m, mrun true pause_table cfg (minit cfg) [Tick 5; FireInterval; ChildExit true; FdsDone] = MOk m /\
+             m_late m = false /\ slow (m_u m) = true /\ m_rt m = 5) /\
+  (exists m, mrun true pause_table cfg (minit cfg) [Tick 5; ChildExit true; FdsDone] = MOk m /\
+             m_late m = false /\ slow (m_u m) = false /\ m_rt m = 5).
+Proof. split; eexists; (split; [vm_compute; reflexivity|repeat split]). Qed.
+
+(* non-vacuity of the history statements: stopped twice, terminated for the timeout after exactly
+   2 x 5 units of running time (105 of real time), killed after the 7 units of grace *)
+Example C09_history_nonvacuous :
+  let cfg := {| period := 5; terminate_after := Some 2; grace := 7; leak_timeout := 1 |} in
+  let es := [Tick 3; Req RStop; Tick 60; Req RContinue; Tick 2; FireInterval; Tick 1; Req RStop; Tick 40;
+             Req RContinue; Tick 4; FireInterval; Tick 3; Req RStop; Tick 20; Req RGetInfo; Req RContinue;
+             Tick 4; FireGrace; ChildExit false; FdsDone] in
+  senv_trace senv0 es = true /\
+  exists m, mrun true pause_table cfg (minit cfg) es = MOk m /\
+    map (fun l => (le_out l, le_rt l, le_gun l)) (rev (m_log m)) =
+      [(OSignal SigTstp, 3, 3); (OAck, 3, 3); (OSignal SigCont, 3, 3); (OSlow false, 5, 5);
+       (OSignal SigTstp, 6, 6); (OAck, 6, 6); (OSignal SigCont, 6, 6);
+       (OSlow true, 10, 10); (OSignal SigTerm, 10, 10);
+       (OSignal SigTstp, 13, 3); (OAck, 13, 3); (OInfo ITerminating, 13, 3); (OSignal SigCont, 13, 3);
+       (OSignal SigKill, 17, 7)] /\
+    uresult (m_u m) = UTimeout /\ time_taken (m_u m) = 17 /\ m_rt m = 17 /\ m_upt m = 17.
+Proof. split; [reflexivity|]. eexists. split; [vm_compute; reflexivity|]. repeat split. Qed.
 
 (* non-vacuity: a test that ignores SIGTERM, terminate-after 2, grace 7 *)
 Example C09_nonvacuous :
